@@ -151,9 +151,9 @@ def conversion_chain(term):
             return 'debug-name', tmpl   # Debug name of an enum variant: an identifier by construction
         if re.search(r'[A-Za-z0-9]_|_[A-Za-z0-9]|[0-9]', lit) or (lit and lit[0].isupper()):
             return 'affixed', tmpl
-        named = dict(arg[3])
-        if 'name' in named and named['name'][0] == 'lit':
-            return 'affixed', tmpl + ' name=' + str(named['name'][2])
+        lits = [a for a in arg[2] if a[0] == 'lit']
+        if lits and re.search(r'[A-Za-z]', str(lits[0][2])):
+            return 'affixed', tmpl + ' with literal ' + str(lits[0][2])
         return 'other', tmpl
     if arg[0] == 'mcall' and arg[2] in ('to_snake', 'to_uppercase', 'to_lowercase', 'to_camel'):
         return 'case-mapped', arg[2]
